@@ -97,10 +97,11 @@ RULES = {
     'M3': '#[getset(get_copy = "pub")] field -> generated getter `pub fn f(&self) -> (r: Ty) ensures r == self.f`',
     'R1': 'for (i, v) in Q.iter().enumerate() { B }  ->  for i in 0..Q.len() { let v = &Q[i]; B }',
     'R2': 'Q.iter()[.copied()].min_by/max_by(partial_cmp closure)  ->  deque_min(&Q) / deque_max(&Q) (trusted helper contract)',
-    'R3': 'for (i, v) in S.iter_mut().enumerate().take(n).skip(3) { *v = E }  ->  for i in 3..min(n, S.len()) { S[i] = E }',
+    'R3': 'for (i, v) in S.iter_mut().enumerate().take(n).skip(3) { *v = E }  ->  let r3_end = min(n, S.len()); for i in 3..r3_end { S[i] = E }',
     'R4': 'debug_assert_ne!(a, b, m) -> debug_assert!(a != b, m)',
     'R5': 'float literals inside T::from(..) get one axiom each (lit == its decimal value); std::f64::consts::PI -> shim const PI',
     'R7': 'OPT.map(|v| { B })  ->  match OPT { Some(v) => Some({ B }), None => None }',
+    'R8': 'Q.get(i) >= P.get(i) on Option<&T>  ->  *Q.get(i).unwrap() >= *P.get(i).unwrap() (equal when both are Some; the unwraps become obligations)',
     'R6': 'Vec::last().copied() -> same call on a shim helper vec_last(&v) (contract: last element or None)',
 }
 
@@ -115,7 +116,7 @@ def rewrite_body(s, applied):
     s = sub('R2', r'\*self\s*\.(\w+)\s*\.iter\(\)\s*\.max_by\(\|x, y\| x\.partial_cmp\(y\)\.unwrap_or\(Ordering::Equal\)\)\s*\.unwrap\(\)', r'deque_max(&self.\1).unwrap()', s)
     s = sub('R2', r'\*self\s*\.(\w+)\s*\.iter\(\)\s*\.min_by\(\|x, y\| x\.partial_cmp\(y\)\.unwrap_or\(Ordering::Equal\)\)\s*\.unwrap\(\)', r'deque_min(&self.\1).unwrap()', s)
     s = sub('R3', r'for \(i, v\) in self\s*\.smooth\s*\.iter_mut\(\)\s*\.enumerate\(\)\s*\.take\(self\.vals\.len\(\)\)\s*\.skip\(3\)\s*\{\s*\*v = ',
-            'for i in 3..(if self.vals.len() < self.smooth.len() { self.vals.len() } else { self.smooth.len() }) {\n            self.smooth[i] = ', s)
+            'let r3_end = if self.vals.len() < self.smooth.len() { self.vals.len() } else { self.smooth.len() };\n        for i in 3..r3_end {\n            self.smooth[i] = ', s)
     s = sub('R4', r'debug_assert_ne!\((\w+), ([^,]+), ', r'debug_assert!(\1 != \2, ', s)
     # R7: Option::map with an inline closure -> match (closures carry no contract in Verus)
     while True:
@@ -126,6 +127,7 @@ def rewrite_body(s, applied):
         if s[c + 1] != ')': raise ExtractError('R7: unexpected closure shape')
         s = s[:m.start()] + 'match %s { Some(%s) => Some({%s}), None => None }' % (m.group(1), m.group(2), s[b + 1:c]) + s[c + 2:]
         applied.add('R7')
+    s = sub('R8', r'if (self\.\w+\.get\(\w+\)) >= (self\.\w+\.get\(\w+\)) \{', r'if *\1.unwrap() >= *\2.unwrap() {', s)
     s = sub('R6', r'self\.(\w+)\.last\(\)\.copied\(\)', r'vec_last(&self.\1)', s)
     return s
 
@@ -187,43 +189,51 @@ class Contract:
         own_step = '\n'.join(self.sec.pop('own_step'))
         own_out = '\n'.join(self.sec.pop('own_out'))
         own_acc = '\n'.join(self.sec.pop('own_accepts', ['true']))
-        O = name + 'Own'
+        xg = opts.get('extra_generic', '')          # e.g. `M` for views with a second generic child
+        gdecl = '<%s: View>' % xg if xg else ''
+        guse = '<%s>' % xg if xg else ''
+        O = name + 'Own' + guse
+        O0 = name + 'Own'
         S = '(V::S, %s)' % O
-        pre = ['pub ghost struct %s { %s }' % (O, ', '.join('pub %s: %s' % (f, t) for f, t, _ in own)),
-               'pub open spec fn %s_own_step(o: %s, y: T) -> %s {\n%s\n}' % (snake, O, O, own_step),
-               'pub open spec fn %s_own_out(o: %s) -> Option<T> {\n%s\n}' % (snake, O, own_out),
-               'pub open spec fn %s_own_accepts(o: %s, y: T) -> bool {\n%s\n}' % (snake, O, own_acc)]
+        pre = ['pub ghost struct %s%s { %s }' % (O0, gdecl, ', '.join('pub %s: %s' % (f, t) for f, t, _ in own)),
+               'pub open spec fn %s_own_step%s(o: %s, y: T) -> %s {\n%s\n}' % (snake, gdecl, O, O, own_step),
+               'pub open spec fn %s_own_out%s(o: %s) -> Option<T> {\n%s\n}' % (snake, gdecl, O, own_out),
+               'pub open spec fn %s_own_accepts%s(o: %s, y: T) -> bool {\n%s\n}' % (snake, gdecl, O, own_acc)]
+        snake_call = snake
+        if xg:
+            snake = snake  # calls need the turbofish
+        tf = '::<%s>' % xg if xg else ''
         self.sec['pre'] = pre + self.sec.get('pre', [])
         conj = []
         for ln in inv:
             m = re.match(r'\[([^|\]]*)\|([^\]]*)\]\s*(.*)$', ln.strip())
             if not m: raise ExtractError('bad inv line in %s: %s' % (self.path, ln))
             conj.append((m.group(1).strip(), m.group(2).strip(), m.group(3).strip()))
-        absx = '%s { %s }' % (O, ', '.join('%s: %s' % (f, e) for f, _, e in own))
+        absx = '%s { %s }' % (O0 + ('::<%s>' % xg if xg else ''), ', '.join('%s: %s' % (f, e) for f, _, e in own))
         spec = ['    type S = %s;' % S,
                 '    open spec fn abs(&self) -> %s { (self.view.abs(), %s) }' % (S, absx),
                 '    open spec fn inv(&self) -> bool {\n        &&& self.view.inv()\n%s\n    }' % '\n'.join('        &&& (%s)' % c[2] for c in conj),
-                '    open spec fn step(s: %s, x: T) -> %s {\n        let vs = V::step(s.0, x);\n        (vs, match V::out(vs) { Some(y) => %s_own_step(s.1, y), None => s.1 })\n    }' % (S, S, snake),
-                '    open spec fn out(s: %s) -> Option<T> { %s_own_out(s.1) }' % (S, snake),
-                '    open spec fn accepts(s: %s, x: T) -> bool {\n        V::accepts(s.0, x) && (match V::out(V::step(s.0, x)) { Some(y) => %s_own_accepts(s.1, y), None => true })\n    }' % (S, snake)]
+                '    open spec fn step(s: %s, x: T) -> %s {\n        let vs = V::step(s.0, x);\n        (vs, match V::out(vs) { Some(y) => %s_own_step%s(s.1, y), None => s.1 })\n    }' % (S, S, snake, tf),
+                '    open spec fn out(s: %s) -> Option<T> { %s_own_out%s(s.1) }' % (S, snake, tf),
+                '    open spec fn accepts(s: %s, x: T) -> bool {\n        V::accepts(s.0, x) && (match V::out(V::step(s.0, x)) { Some(y) => %s_own_accepts%s(s.1, y), None => true })\n    }' % (S, snake, tf)]
         self.sec['implspec'] = spec + self.sec.get('implspec', [])
         def sub_self(e, to):
             return re.sub(r'\bself\b', to, e)
         newc = ['requires view.inv()']
-        newc += ['ensures[init|C08,C17] r.view.abs() == view.abs() && r.abs().1 == (%s { %s })' % (O, ', '.join('%s: %s' % (f, init[f].strip()) for f, _, _ in own))]
+        newc += ['ensures[init|C08,C17] r.view.abs() == view.abs() && r.abs().1 == (%s { %s })' % (O0 + ('::<%s>' % xg if xg else ''), ', '.join('%s: %s' % (f, init[f].strip()) for f, _, _ in own))]
         newc += ['ensures[inv:%s|%s] %s' % (l, t, sub_self(e, 'r')) for l, t, e in conj]
         newc += ['ensures[inv:view|C15] r.view.inv()']
         self.sec['fn ' + initf] = newc + self.sec.get('fn ' + initf, [])
         e3 = opts.get('E3', '')
         upd = ['ensures[E1|C01,C17] final(self).abs().0 == V::step(old(self).abs().0, val)',
                'ensures[E2|C01,C08,C17] V::out(final(self).abs().0).is_none() ==> final(self).abs().1 == old(self).abs().1',
-               'ensures[E3|%s] V::out(final(self).abs().0).is_some() ==> final(self).abs().1 =~~= %s_own_step(old(self).abs().1, V::out(final(self).abs().0).unwrap())' % (e3, snake)]
+               'ensures[E3|%s] V::out(final(self).abs().0).is_some() ==> final(self).abs().1 =~~= %s_own_step%s(old(self).abs().1, V::out(final(self).abs().0).unwrap())' % (e3, snake, tf)]
         upd += ['ensures[inv:%s|%s] %s' % (l, t, sub_self(e, 'final(self)')) for l, t, e in conj]
         self.sec['fn update'] = upd + self.sec.get('fn update', [])
         # asserted before every non-silent exit of `update`, so that the trait-level contract follows from the labelled clauses
         self.tail = [('proof { assert(%s); }' % sub_self(e, 'self'), 'inv:' + l, t) for l, t, e in conj]
-        self.tail.insert(0, ('proof { assert(V::out(self.abs().0).is_some() ==> self.abs().1 =~~= %s_own_step(old(self).abs().1, V::out(self.abs().0).unwrap())); }' % snake, 'E3', e3))
-        self.sec['fn last'] = ['ensures[out|%s] r == %s_own_out(self.abs().1)' % (opts.get('out', ''), snake)] + self.sec.get('fn last', [])
+        self.tail.insert(0, ('proof { assert(V::out(self.abs().0).is_some() ==> self.abs().1 =~~= %s_own_step%s(old(self).abs().1, V::out(self.abs().0).unwrap())); }' % (snake, tf), 'E3', e3))
+        self.sec['fn last'] = ['ensures[out|%s] r == %s_own_out%s(self.abs().1)' % (opts.get('out', ''), snake, tf)] + self.sec.get('fn last', [])
     def _field(self, ln):
         m = re.match(r'\s*(\w+)\s*:\s*([^=]+?)\s*=\s*(.*)$', ln)
         if not m: raise ExtractError('bad own field in %s: %s' % (self.path, ln))
@@ -323,7 +333,7 @@ def inject_fn(em, module, vc, header, body, is_trait_impl, struct_name):
             inserts.append((b, ('LOOP', k, lt)))
         le = vc.get('loopend %s %d' % (name, k))
         if le:
-            inserts.append((c, ('TEXT', k, le)))
+            inserts.append((c, ('LOOPEND', k, le)))
     tail = vc.tail if (name == 'update' and is_trait_impl) else []
     for k, m in enumerate(re.finditer(r'\breturn\b', body)):
         rt = vc.get('return %s %d' % (name, k))
@@ -352,13 +362,13 @@ def inject_fn(em, module, vc, header, body, is_trait_impl, struct_name):
             inserts.append((len(body.rstrip()), ('END', -1, et)))
     if tail:
         inserts.append((len(body.rstrip()), ('ENDTAIL', -1, '')))
-    prio = {'TEXT': 0, 'LOOP': 0, 'END': 0, 'TAIL': 1, 'ENDTAIL': 1}
+    prio = {'TEXT': 0, 'LOOP': 0, 'END': 0, 'LOOPEND': 0, 'TAIL': 1, 'ENDTAIL': 1}
     inserts = [x for _, x in sorted(enumerate(inserts), key=lambda t: (t[1][0], prio[t[1][1][0]], t[0]))]
     em.add('    {')
     pos = 0
     for p, (kind, k, text) in inserts:
         chunk = body[pos:p]
-        if kind in ('END', 'ENDTAIL') and chunk.rstrip() and chunk.rstrip()[-1] not in ';}':
+        if kind in ('END', 'ENDTAIL', 'LOOPEND') and chunk.rstrip() and chunk.rstrip()[-1] not in ';}{':
             chunk = chunk.rstrip() + ';'
         if chunk.strip('\n') != '' or chunk.count('\n') > 1:
             em.add(chunk.strip('\n'))
@@ -422,7 +432,7 @@ def process_file(em, path, report):
     em.add('pub mod %s {' % stem)
     em.add('use vstd::prelude::*;\nuse vstd::view::View as SpecView;\nuse std::collections::VecDeque;\n'
            'use crate::shim::*;\nuse crate::shim::View;\nuse crate::lem::*;\nuse crate::alg::*;\nuse crate::views::*;\n'
-           'broadcast use {crate::lem::group_lem, crate::shim::group_literals, crate::shim::group_shim};')
+           'broadcast use {%s};' % (vc.get('broadcast') or 'crate::lem::group_lem, crate::shim::group_literals, crate::shim::group_shim').strip())
     pre = vc.get('pre')
     if pre: em.add(pre)
     fns = []
